@@ -346,6 +346,8 @@ func runC18(c *Ctx, r *Report) {
 	// ---- R-C18.6 / R-C18.7
 	r.Doc("R-C18.6", "the decode path keeps no state between blocks (pooled or memoised scratch objects would hand one entry's decrypted links to the next)")
 	r.Doc("R-C18.7", "the codec objects shared by concurrent PreSign/DecryptLinks calls are of concurrency-safe (pooled/stateless) types")
+	r.Doc("R-C18.8", "the link-key codec configured for a log is the one its loaders read with and the one a reopened log writes with")
+	optionForwarding(c, r, "R-C18.8", append(append(loaderFetchSpecs(), constructorLoaderSpecs()...), constructorLogSpecs()...), "IO")
 	nd := 0
 	for fn := range decodeScope(c) {
 		nd++
